@@ -64,3 +64,8 @@ func (v *VerifShuttermintLoop) Iteration(ctx context.Context, syncBlockNumber ui
 	}
 	return v.SendShutterMessages(ctx)
 }
+
+// ShuttermintState returns the loop's volatile cache (for observation).
+func (v *VerifShuttermintLoop) ShuttermintState() *smobserver.ShuttermintState {
+	return v.core.shuttermintState
+}
